@@ -20,8 +20,9 @@ META = dict(
          "combinations is served by ONE Responder that is reset between the two the way Valet does on a persistent connection and parsed by ONE "
          "re-armed Respondent; both responses must equal what the application produced and leave no bytes behind.  Method sequences: every "
          "sequence of 1-3 requests over HEAD / GET / POST / DELETE on ONE keep-alive Patron against a real Valet (socket doubles), x Patron "
-         "constructed with default method or HEAD x fixed-length or streamed app x requests issued one by one or queued at once; every response "
-         "must match the app's output (no body for HEAD) and leave nothing in the receive buffer.",
+         "constructed with default method or HEAD x each request answered fixed-length, streamed or by HTTPError x requests issued one by one or "
+         "queued at once; every response must match the app's output (no body for HEAD) when delivered AND still after all later responses, and "
+         "leave nothing in the receive buffer.",
     note="Pure product of small sets; arrival schedules only as two-piece fragmentation of the Responder's own output (C29 covers the general case); multipart form bodies, header values outside "
          "latin-1, duplicate header names and HTTPError raised after the head was sent are not exercised.  GET requests "
          "carry no body by ioflo's documented design, so the expected body for GET is empty.",
@@ -558,44 +559,68 @@ def work_pairs(arg):
 # --------------------------------------------------------------------------- one Patron, one connection, switching methods
 
 SEQ_METHODS = ["HEAD", "GET", "POST", "DELETE"]
+SEQ_KINDS = {"f": "fixed", "s": "streamed", "e": "error"}       # how the app answers one request
 RESOURCE = b"Hello World, this is the body of the resource."
 _FSM = []
 
 
-def method_sequences():
+def request_sequences(first):
+    """Every sequence of 1-3 (method, response kind) requests starting with method `first`:
+    lengths 1-2 over all three kinds, length 3 over fixed / streamed."""
     import itertools
     out = []
     for n in (1, 2, 3):
-        out += [list(t) for t in itertools.product(SEQ_METHODS, repeat=n)]
+        kinds = "fse" if n < 3 else "fs"
+        for ms in itertools.product(SEQ_METHODS, repeat=n):
+            if ms[0] != first:
+                continue
+            for ks in itertools.product(kinds, repeat=n):
+                out.append(list(zip(ms, ks)))
     return out
 
 
-def seq_app_fixed(environ, start):
-    m = environ["REQUEST_METHOD"]
-    body = m.encode("ascii") + b" " + environ["PATH_INFO"].encode("ascii") + b" " + RESOURCE
-    start("200 OK", [("Content-Type", "text/plain"), ("Content-Length", str(len(body))), ("X-Method", m),
-                     ("X-Path", environ["PATH_INFO"]), ("X-Body", environ["wsgi.input"].read().decode("latin-1"))])
-    return [body]
+def seq_app(environ, start):
+    """Answers by the last letter of the path: f = Content-Length, s = streamed (chunked, with an
+    empty yield), e = raises HTTPError 404."""
+    from ioflo.aio.http import httping
+    m, path = environ["REQUEST_METHOD"], environ["PATH_INFO"]
+    echo = environ["wsgi.input"].read().decode("latin-1")
+    extra = [("X-Method", m), ("X-Path", path), ("X-Body", echo)]
+    kind = path[-1]
+    if kind == "e":
+        raise httping.HTTPError(404, title="T", detail="D", headers=dict(extra))
+    body = m.encode("ascii") + b" " + path.encode("ascii") + b" " + RESOURCE
+    if kind == "f":
+        start("200 OK", [("Content-Type", "text/plain"), ("Content-Length", str(len(body)))] + extra)
+        return [body]
+    start("200 OK", [("Content-Type", "text/plain")] + extra)
+    return iter([body[:len(m) + 1], b"", body[len(m) + 1:]])
 
 
-def seq_app_streamed(environ, start):
-    m = environ["REQUEST_METHOD"]
-    start("200 OK", [("Content-Type", "text/plain"), ("X-Method", m), ("X-Path", environ["PATH_INFO"]),
-                     ("X-Body", environ["wsgi.input"].read().decode("latin-1"))])
-    yield m.encode("ascii") + b" " + environ["PATH_INFO"].encode("ascii") + b" "
-    yield b""
-    yield RESOURCE
+def seq_expected(i, m, k):
+    path = "/r%d%s" % (i, k)
+    hdrs = {"x-method": m, "x-path": path, "x-body": "payload-%d" % i if m == "POST" else "", "content-type": "text/plain"}
+    if k == "e":
+        status, body = (404, "Not Found"), b"404 Not Found\nT\nD\n"
+        hdrs["content-length"] = str(len(body))
+    else:
+        status, body = (200, "OK"), m.encode("ascii") + b" " + path.encode("ascii") + b" " + RESOURCE
+        if k == "f":
+            hdrs["content-length"] = str(len(body))
+    return path, status, hdrs, (b"" if m == "HEAD" else body)
 
 
-def sequence_case(case, ctor_method, appkind, queue, methods, part, replay):
-    """Real Patron <-> real Valet over socket doubles, keep-alive, requests issued with Patron.request()."""
+def sequence_case(case, ctor_method, queue, reqs, part, replay):
+    """Real Patron <-> real Valet over socket doubles, keep-alive, requests issued with Patron.request().
+    Every response is checked when delivered, and every delivered response is checked AGAIN after
+    the whole sequence (a caller may keep responses while it issues further requests)."""
     from mc import net
     from ioflo.aio.http import clienting, serving
     FSM = _FSM[0]
     fn = net.FakeNet()
     FSM.net = fn
     ck = net.clock()
-    valet = serving.Valet(app=seq_app_fixed if appkind == "fixed" else seq_app_streamed, ha=("", 8090), store=ck)
+    valet = serving.Valet(app=seq_app, ha=("", 8090), store=ck)
     if not valet.open():
         raise core.BrokenCheck("Valet.open failed on the fake net")
     kw = dict(hostname="127.0.0.1", port=8090, store=ck)
@@ -608,13 +633,30 @@ def sequence_case(case, ctor_method, appkind, queue, methods, part, replay):
         part.violation("patron-sequence|%s" % field, case, "one Patron, requests %s: %s" % (case, what), replay)
 
     def issue(i):
-        m = methods[i]
-        patron.request(method=m, path="/r%d" % i, body=b"payload-%d" % i if m == "POST" else None)
+        m, k = reqs[i]
+        patron.request(method=m, path="/r%d%s" % (i, k), body=b"payload-%d" % i if m == "POST" else None)
 
+    def compare(i, rsp, when):
+        m, k = reqs[i]
+        path, status, hdrs, want = seq_expected(i, m, k)
+        ok = True
+        if (rsp["status"], rsp["reason"]) != status:
+            bad("status" + when, "request %d (%s %s): status %r %r, app sent %r" % (i + 1, m, path, rsp["status"], rsp["reason"], status))
+            ok = False
+        for hk in sorted(hdrs):
+            if rsp["headers"].get(hk) != hdrs[hk]:
+                bad("headers" + when, "request %d (%s %s): header %s is %r, app sent %r" % (i + 1, m, path, hk, rsp["headers"].get(hk), hdrs[hk]))
+                ok = False
+        if bytes(rsp["body"]) != want:
+            bad("body" + when, "request %d (%s %s): body %r, expected %r" % (i + 1, m, path, bytes(rsp["body"]), want))
+            ok = False
+        return ok
+
+    delivered = []
     if queue == "all-at-once":
-        for i in range(len(methods)):
+        for i in range(len(reqs)):
             issue(i)
-    for i, m in enumerate(methods):
+    for i, (m, k) in enumerate(reqs):
         if queue == "one-by-one":
             issue(i)
         rsp = None
@@ -633,50 +675,47 @@ def sequence_case(case, ctor_method, appkind, queue, methods, part, replay):
             bad("no-response", "request %d (%s) never gets its response (client still parsing: %r buffered)"
                 % (i + 1, m, bytes(patron.connector.rxbs[:50])))
             return "no-response"
-        path = "/r%d" % i
-        want = b"" if m == "HEAD" else m.encode("ascii") + b" " + path.encode("ascii") + b" " + RESOURCE
         if rsp["errored"]:
             bad("errored", "request %d (%s): response errored: %s" % (i + 1, m, rsp["error"]))
             return "errored"
-        if rsp["status"] != 200 or rsp["reason"] != "OK":
-            bad("status", "request %d (%s): status %r %r" % (i + 1, m, rsp["status"], rsp["reason"]))
-        for k, v in (("x-method", m), ("x-path", path), ("content-type", "text/plain"),
-                     ("x-body", "payload-%d" % i if m == "POST" else "")):
-            if rsp["headers"].get(k) != v:
-                bad("headers", "request %d (%s): header %s is %r, app sent %r" % (i + 1, m, k, rsp["headers"].get(k), v))
-        if appkind == "fixed" and rsp["headers"].get("content-length") != str(len(m) + len(path) + 2 + len(RESOURCE)):
-            bad("headers", "request %d (%s): content-length header %r" % (i + 1, m, rsp["headers"].get("content-length")))
-        if bytes(rsp["body"]) != want:
-            bad("body", "request %d (%s): body %r, expected %r" % (i + 1, m, bytes(rsp["body"]), want))
-        if queue == "one-by-one" or i == len(methods) - 1:
+        compare(i, rsp, "")
+        delivered.append(rsp)          # the caller keeps the response
+        if queue == "one-by-one" or i == len(reqs) - 1:
             if patron.connector.rxbs:
                 bad("leftover", "request %d (%s): %d bytes %r left in the client's receive buffer after the response"
                     % (i + 1, m, len(patron.connector.rxbs), bytes(patron.connector.rxbs[:40])))
                 return "leftover"
     if patron.responses:
         bad("extra-response", "%d more responses than requests" % len(patron.responses))
+    # ---- every response delivered earlier must still say what it said
+    for i, rsp in enumerate(delivered[:-1]):
+        if not compare(i, rsp, "-changed-after-later-response"):
+            return "earlier-response-changed"
     return "ok"
 
 
 def work_sequences(arg):
-    ctor_method, appkind, queue = arg
+    ctor_method, queue, first = arg
     core.use_repo()
     from mc import net
     if not _FSM:
         _FSM.append(net.FakeSocketModule().install())
     part = core.Part()
     with core.watchdog(600):
-        for methods in method_sequences():
-            case = "%s  (Patron(method=%s), app %s, requests queued %s)" % (
-                " ".join(methods), ctor_method or "default GET", appkind, queue)
-            out = sequence_case(case, ctor_method, appkind, queue, methods, part,
-                                dict(direction="patron-sequence", constructor_method=ctor_method, app=appkind, queue=queue, methods=methods,
-                                     how="Valet(app).open(); Patron(hostname, port[, method]).open(); Patron.request(method=m, path='/r<i>'); "
-                                         "alternate Patron.serviceAll() / Valet.serviceAll() until patron.responses"))
+        for reqs in request_sequences(first):
+            case = "%s  (Patron(method=%s), requests queued %s)" % (
+                " ".join("%s:%s" % (m, SEQ_KINDS[k]) for m, k in reqs), ctor_method or "default GET", queue)
+            out = sequence_case(case, ctor_method, queue, reqs, part,
+                                dict(direction="patron-sequence", constructor_method=ctor_method, queue=queue,
+                                     requests=[dict(method=m, path="/r%d%s" % (i, k), answer=SEQ_KINDS[k]) for i, (m, k) in enumerate(reqs)],
+                                     how="Valet(app).open(); Patron(hostname, port[, method]).open(); Patron.request(method=m, path=p); "
+                                         "alternate Patron.serviceAll() / Valet.serviceAll() until patron.responses; keep every response and "
+                                         "look at all of them again at the end"))
             part.evaluations += 1
             part.nontrivial("seq " + case)
+            methods = [m for m, k in reqs]
             switches = sum(1 for a, b in zip([ctor_method or "GET"] + methods, methods) if (a == "HEAD") != (b == "HEAD"))
-            part.outcome("patron-sequence:%d-head-switches:%s" % (switches, out))
+            part.outcome("patron-sequence:%d-head-switches:%s:%s" % (switches, "".join(k for m, k in reqs)[-2:], out))
         part.sample(dict(direction="patron-sequence", case=case))
     return part
 
@@ -698,7 +737,7 @@ def run():
     items += [("rsp", ("errors",))]
     items += [("req", (m, p)) for m in METHODS for p in PATHS]
     items += [("pair", i) for i in range(len(PAIRKINDS))]
-    items += [("seq", (c, a, q)) for c in (None, "HEAD") for a in ("fixed", "streamed") for q in ("one-by-one", "all-at-once")]
+    items += [("seq", (c, q, f)) for c in (None, "HEAD") for q in ("one-by-one", "all-at-once") for f in SEQ_METHODS]
     ck.merge(core.pmap(work, items))
     ck.coverage_extra = dict(request_dimensions=dict(methods=len(METHODS), paths=len(PATHS), qarg_sets=len(qarg_sets()),
                                                      header_sets=len(HEADERSETS), bodies=len(bodies())),
@@ -718,8 +757,10 @@ def run():
         "reinit(method=...) as Patron does; pairs whose first response is not delimited (no Content-Length, not chunkable) are skipped because "
         "that response ends the connection; response bodies are read when each response completes",
         "method sequences: one keep-alive Patron talks to a real Valet over the socket doubles of mc/net.py (natural answers, manual clock); "
-        "every sequence of 1-3 requests over HEAD, GET, POST, DELETE is issued with Patron.request(method=..., path=...), either each after the "
-        "previous response or all queued first, on a Patron constructed with the default method or with method='HEAD'; each response must carry "
+        "every sequence of 1-3 requests over HEAD, GET, POST, DELETE, each answered with Content-Length, streamed (chunked) or by a raised "
+        "HTTPError (all mixes; length 3: fixed / streamed only), is issued with Patron.request(method=..., path=...), either each after the "
+        "previous response or all queued first, on a Patron constructed with the default method or with method='HEAD'; the caller keeps every "
+        "response and all of them are compared again after the last one (a delivered response must not change); each response must carry "
         "the app's status, X-Method / X-Path / X-Body (echo of the request body) / Content-Type (and Content-Length) headers and body (empty for HEAD) and leave the receive buffer empty",
         "by HTTP rules a response to HEAD and any 1xx / 204 / 304 response has no body: the body the client must see for those is empty whatever "
         "the application yields, the application's headers (including a Content-Length on a HEAD response) must still arrive, and no byte of "
